@@ -23,7 +23,7 @@ from pathlib import Path
 from typing import Any, Dict, List, Optional, Sequence, Tuple
 
 ROOT = Path(__file__).resolve().parent.parent
-WORK = ROOT / ".work"
+WORK = ROOT / ".work" / os.environ.get("VF_RUN_ID", "dev")  # one scratch dir per check invocation
 
 
 @dataclass
@@ -144,7 +144,7 @@ def _analyze_one(cond: Cond, kind: str, wid: int) -> Result:
 
     t0 = time.time()
     c0 = time.process_time()
-    WORK.mkdir(exist_ok=True)
+    WORK.mkdir(exist_ok=True, parents=True)
     d = WORK / f"w{wid}"
     d.mkdir(exist_ok=True)
     modname = f"_vfcond_{wid}_{int(time.time() * 1e6) % 10 ** 12}"
@@ -258,7 +258,7 @@ def run_conditions(jobs: List[Tuple[Cond, str]], nproc: int = 16, log=print) -> 
             task_qs[wid].put(None)
             current.pop(wid, None)
 
-    WORK.mkdir(exist_ok=True)
+    WORK.mkdir(exist_ok=True, parents=True)
     open(WORK / "progress.log", "w").close()
     for _ in range(nproc):
         spawn()
